@@ -85,3 +85,52 @@ Proof. vm_compute. reflexivity. Qed.
 
 Example ex_restart_fixed : exists s, run true true 5 exT 1 exRestart (init 1) = Some s /\ pool_hashes s = [3].
 Proof. eexists. split; vm_compute; reflexivity. Qed.
+
+(* ---------- the restart traversal must ACCUMULATE the children's paths over all paths of a stored node ---------- *)
+
+(* a branch (1) whose children 0 and 1 are the same interior node (2: an extension over leaf 3) *)
+Definition twT : tree :=
+  [ (1, mkNode [([0], 2); ([1], 2)] None); (2, mkNode [([5], 3)] None); (3, mkNode [] (Some 9)) ].
+Definition tw (h : hash) : item := match lookup twT h with Some n => IWire h n [] | None => IBad end.
+
+(* the variant that keeps, for a node visited with several paths, only the children of its LAST path *)
+Definition restore1_ow (h : hash) (n : node) (R Q : list pair) : list pair * list pair :=
+  let P := paths_of Q h in
+  (map (fun p => (p, h)) P ++ R,
+   fold_right add_pair (remove_h Q h) (kid_pairs (match rev P with [] => [] | p :: _ => [p] end) n [])).
+
+Fixpoint trav_ow (fuel : nat) (T : tree) (R : list pair) (h : hash) (CQ : list pair * list pair) : list pair * list pair :=
+  match fuel with
+  | O => CQ
+  | S f =>
+      if stored R h then
+        match lookup T h with
+        | None => CQ
+        | Some n =>
+            let cq := match paths_of (snd CQ) h with [] => CQ | _ :: _ => restore1_ow h n (fst CQ) (snd CQ) end in
+            fold_left (fun a lc => trav_ow f T R (snd lc) a) (kids n) cq
+        end
+      else CQ
+  end.
+
+(* nodes 1 and 2 are stored (2 at both paths), leaf 3 is missing at [0;5] and [1;5]; restart *)
+Definition tw_before : option st := run true true 5 twT 1 [ODeliver [tw 1]; ODeliver [tw 2]] (init 1).
+
+Lemma restart_overwrite_refuted :
+  exists s, tw_before = Some s /\
+    (* the real traversal re-derives both paths of the missing leaf ... *)
+    (exists s', restart true 5 twT 1 s = Some s' /\ pool s' = [([0; 5], 3); ([1; 5], 3)] /\
+       exists s'', run true true 5 twT 1 [ODeliver [tw 3]] s' = Some s'' /\ pool s'' = [] /\ count_of s'' 3 = 2%nat /\
+                   temp_storage twT s'' = [([0; 5], 9); ([1; 5], 9)]) /\
+    (* ... the overwriting one only the last: after the leaf is delivered the pool is empty, the leaf is stored once, and
+       the storage item at path [0;5] is missing *)
+    let q := snd (trav_ow 5 twT (store s) 1 ([], [([], 1)])) in
+    q = [([1; 5], 3)] /\
+    exists s'', run true true 5 twT 1 [ODeliver [tw 3]] (mkSt (store s) q false) = Some s'' /\ pool s'' = [] /\
+                count_of s'' 3 = 1%nat /\ temp_storage twT s'' = [([1; 5], 9)].
+Proof.
+  eexists. split; [vm_compute; reflexivity|]. split.
+  - eexists. split; [vm_compute; reflexivity|]. split; [vm_compute; reflexivity|].
+    eexists. split; [vm_compute; reflexivity|]. vm_compute. auto.
+  - vm_compute. split; [reflexivity|]. eexists. split; [reflexivity|]. auto.
+Qed.
